@@ -214,7 +214,7 @@ func (g *G) floatLit() *Expr {
 	return &Expr{K: "float", F: f}
 }
 
-var strPool = []string{"", "a", "b", "ab", "Hello", "hello world", "  pad  ", "x,y,z", "ÄÖ", "naïve", "日本", "A", "zz", "0", "12", "a b"}
+var strPool = []string{"", "a", "b", "ab", "Hello", "hello world", "  pad  ", "x,y,z", "ÄÖ", "naïve", "日本", "A", "zz", "0", "12", "a b", "héllo wörld", "éabcdef", "日本語 text"}
 
 func (g *G) strLit() *Expr { return &Expr{K: "str", S: strPool[g.R.Intn(len(strPool))]} }
 
@@ -499,9 +499,10 @@ func (g *G) expr2(t Ty, depth int) *Expr {
 			case 0:
 				return &Expr{K: "call", S: "toString", A: []*Expr{g.arg(TInt, depth-1)}}
 			case 1:
-				return &Expr{K: "call", S: "charAt", A: []*Expr{g.arg(TStr, depth-1), {K: "int", I: int64(g.R.Intn(4))}}}
+				return &Expr{K: "call", S: "charAt", A: []*Expr{g.arg(TStr, depth-1), {K: "int", I: int64(g.R.Intn(7))}}}
 			default:
-				return &Expr{K: "call", S: "substring", A: []*Expr{g.arg(TStr, depth-1), {K: "int", I: int64(g.R.Intn(3))}, {K: "int", I: int64(2 + g.R.Intn(4))}}}
+				st := g.R.Intn(6)
+				return &Expr{K: "call", S: "substring", A: []*Expr{g.arg(TStr, depth-1), {K: "int", I: int64(st)}, {K: "int", I: int64(st + g.R.Intn(5))}}}
 			}
 		case c == 8 && g.F.Match:
 			return g.matchExpr(TStr, depth-1)
@@ -938,7 +939,125 @@ func (g *G) Program(size int) *Prog {
 	}
 	p.Body = append(p.Body, g.retStmt(TObj))
 	g.pop()
+	if len(p.Funcs) > 0 {
+		g.collideParamNames(p)
+	}
 	return p
+}
+
+// collideParamNames renames some function parameters to names the route body uses for its
+// own variables. Callee and caller scopes are separate, so a correct implementation is
+// unaffected; an implementation that evaluates an argument in the wrong scope (or leaks a
+// parameter into the caller) is not.
+func (g *G) collideParamNames(p *Prog) {
+	var routeVars []string
+	seen := map[string]bool{}
+	var collect func(ss []*Stmt, into *[]string, set map[string]bool)
+	var collectE func(e *Expr, set map[string]bool)
+	collectE = func(e *Expr, set map[string]bool) {
+		if e == nil {
+			return
+		}
+		if e.K == "var" {
+			set[e.S] = true
+		}
+		for _, a := range e.A {
+			collectE(a, set)
+		}
+		for _, arm := range e.Arms {
+			if arm.Bind != "" {
+				set[arm.Bind] = true
+			}
+			collectE(arm.Lit, set)
+			collectE(arm.Guard, set)
+			collectE(arm.Body, set)
+		}
+	}
+	collect = func(ss []*Stmt, into *[]string, set map[string]bool) {
+		for _, s := range ss {
+			if s.K == "decl" && into != nil && !set[s.Name] {
+				*into = append(*into, s.Name)
+			}
+			if s.Name != "" {
+				set[s.Name] = true
+			}
+			if s.Name2 != "" {
+				set[s.Name2] = true
+			}
+			collectE(s.E, set)
+			collect(s.Body, into, set)
+			collect(s.Else, into, set)
+			if s.ElseIf != nil {
+				collect([]*Stmt{s.ElseIf}, into, set)
+			}
+			for _, c := range s.Cases {
+				collectE(c.Val, set)
+				collect(c.Body, into, set)
+			}
+		}
+	}
+	collect(p.Body, &routeVars, seen)
+	if len(routeVars) == 0 {
+		return
+	}
+	for _, f := range p.Funcs {
+		used := map[string]bool{}
+		for _, pr := range f.Params {
+			used[pr.Name] = true
+		}
+		collect(f.Body, nil, used)
+		for k := range f.Params {
+			if g.R.Intn(2) != 0 {
+				continue
+			}
+			nn := routeVars[g.R.Intn(len(routeVars))]
+			if used[nn] {
+				continue
+			}
+			old := f.Params[k].Name
+			used[nn] = true
+			f.Params[k].Name = nn
+			var re func(e *Expr)
+			re = func(e *Expr) {
+				if e == nil {
+					return
+				}
+				if e.K == "var" && e.S == old {
+					e.S = nn
+				}
+				for _, a := range e.A {
+					re(a)
+				}
+				for i := range e.Arms {
+					re(e.Arms[i].Lit)
+					re(e.Arms[i].Guard)
+					re(e.Arms[i].Body)
+				}
+			}
+			var rs func(ss []*Stmt)
+			rs = func(ss []*Stmt) {
+				for _, s := range ss {
+					if s.Name == old {
+						s.Name = nn
+					}
+					if s.Name2 == old {
+						s.Name2 = nn
+					}
+					re(s.E)
+					rs(s.Body)
+					rs(s.Else)
+					if s.ElseIf != nil {
+						rs([]*Stmt{s.ElseIf})
+					}
+					for i := range s.Cases {
+						re(s.Cases[i].Val)
+						rs(s.Cases[i].Body)
+					}
+				}
+			}
+			rs(f.Body)
+		}
+	}
 }
 
 // ---------------------------------------------------------------- printer
